@@ -55,7 +55,8 @@ def decision_table(fn, m=None) -> list[tuple[frozenset, str]]:
         if isinstance(term.ast, ast.Return):
             nrc = nrc_of(term.ast, env)
             outcome = nrc if nrc is not None else ("None" if ast.unparse(term.ast.value) == "None" else ast.unparse(term.ast.value))
-            rows.append((frozenset((mk(c) if not c.startswith("loop:") else c, v) for c, v in conds), outcome, mk(ast.unparse(term.ast.value))))
+            from sa.util import norm_conds
+            rows.append((norm_conds([(mk(c) if not c.startswith("loop:") else c, v) for c, v in conds]), outcome, mk(ast.unparse(term.ast.value))))
     return rows
 
 
@@ -165,11 +166,21 @@ def run(m: Model, r: Report, tier: str) -> None:
             return t
 
     def has_row(table, need_true: list[str], need_false: list[str], outcome: str) -> bool:
-        need_true, need_false = [_ct(x) for x in need_true], [_ct(x) for x in need_false]
+        from sa.util import norm_conds
+        def lits(x: str, pol: bool):
+            # a spec that is no complete expression (e.g. "any(") is a text fragment of one literal
+            try:
+                ast.parse(x, mode="eval")
+            except SyntaxError:
+                return {(x, pol)}
+            return set(norm_conds([(_ct(x), pol)]))
+        need = set()
+        for x in need_true:
+            need |= lits(x, True)
+        for x in need_false:
+            need |= lits(x, False)
         for conds, out, _ in table:
-            tset = {c for c, v in conds if v}
-            fset = {c for c, v in conds if not v}
-            if out == outcome and all(any(n in c for c in tset) for n in need_true) and all(any(n in c for c in fset) for n in need_false):
+            if out == outcome and all(any(n in c and v == pv for c, v in conds) for n, pv in need):
                 return True
         return False
     r.check(has_row(t1, ["request.service_id not in self.supported_services[self.state.session]", "any("], [], "serviceNotSupportedInActiveSession") and
@@ -311,8 +322,15 @@ def run(m: Model, r: Report, tier: str) -> None:
     ok, path = g.must_pass(g.entry, upd, sup)
     r.check(bool(upd and sup) and ok, "R4", f"{resp.qualname}#state-before-suppression",
             "a suppressed positive reply must still change the state: update_state has to run before the suppression step", loc=resp.loc)
-    nn = [n for n in g.nodes.values() if n.kind == "cond" and n.ast is not None and m.mtext(resp, n.ast) == "_L is not None"]
-    r.check(len(nn) == 1, "R4", f"{resp.qualname}#only-real-responses", "state update / suppression must be skipped when there is no response", loc=resp.loc)
+    from sa.util import path_condition as _pcr, norm_conds as _ncr
+    ucalls = [n for n in ast.walk(resp.node) if isinstance(n, ast.Call) and ast.unparse(n.func) == "self.update_state" and len(n.args) == 2]
+    scalls = [n for n in ast.walk(resp.node) if isinstance(n, ast.Call) and ast.unparse(n.func) == "self.default_response_if_suppress" and len(n.args) == 2]
+    if len(ucalls) != 1 or not scalls or not all(isinstance(c.args[1], ast.Name) for c in ucalls + scalls):
+        r.unrecognised("R4", f"{resp.qualname}#only-real-responses", "update_state / default_response_if_suppress calls with the response variable not found", resp.loc)
+    else:
+        unguarded = [ast.unparse(c) for c in ucalls + scalls if (f"{c.args[1].id} is None", False) not in _ncr(_pcr(resp.node, c))]
+        r.check(not unguarded, "R4", f"{resp.qualname}#only-real-responses", f"{unguarded} can run although there is no response: state update / suppression must be skipped "
+                "when there is no response", loc=resp.loc)
 
     # ---------------------------------------------------------------- R5
     us = m.require_function(f"{SRV}.UDSServer.update_state")
